@@ -374,6 +374,28 @@ func crossPkgAccessProgs(e *Env) []*Program {
 		b.P.Feat = map[string]string{"matrix": "xpkg", "what": "provider in an internal package: " + v}
 		progs = append(progs, b.P)
 	}
+	for _, v := range []string{"provider", "value"} {
+		// internal inside internal: app may import <root>/internal/svc but not
+		// <root>/internal/svc/internal/impl, which a set of svc refers to
+		b := NewPB("xp_nested_internal_"+v, "app", "svc", "impl", "cmdapp")
+		b.P.Pkgs[1].Dir = "internal/svc"
+		b.P.Pkgs[2].Dir = "internal/svc/internal/impl"
+		b.P.Pkgs[3].Dir = "internal/svc/cmd/cmdapp"
+		store := b.Carrier(2, "Store")
+		service := b.Carrier(1, "Service")
+		var src *Item
+		if v == "value" {
+			src = b.Value(store)
+		} else {
+			src = b.Func(2, "New", store, false, false)
+		}
+		set := b.Set(1, "Set", ItemRef(src.ID), ItemRef(b.Func(1, "NewService", service, false, false, store).ID))
+		b.Inj("Init", service, false, false, nil, SetRef(set.ID))
+		b.P.Note = "xpkg-nested-internal-" + v
+		b.P.RejectOK = true
+		b.P.Feat = map[string]string{"matrix": "xpkg", "what": "provider in an internal package of an internal package: " + v}
+		progs = append(progs, b.P)
+	}
 	for _, v := range []string{"star", "named-pub", "named-priv", "fieldsof-priv"} {
 		// a type of the injector's package defined over a struct of ANOTHER package that has an
 		// unexported field: that field stays out of reach
